@@ -246,6 +246,9 @@ func (s *session) UpdateContainers(ctx context.Context, req *api.UpdateContainer
 func (s *session) afterRegister() {
 	switch s.sc.AfterReg {
 	case "drop":
+		// Give the stub time to consume the RegisterPlugin response: a drop that overtakes the
+		// response makes RegisterPlugin itself fail, which is the other behaviour (Register "drop").
+		time.Sleep(50 * time.Millisecond)
 		s.cc.kill()
 		return
 	case "silent":
